@@ -3,9 +3,9 @@
 # and re-run the named checks (default: the property in its name) against it; rewrites confirmed.json/detected.json.
 name="$1"; shift; here="$(cd "$(dirname "$0")/.." && pwd)"; d="$here/seeded/$name"
 pid="${name%%_*}"; checks="${*:-$pid}"
-wt="/tmp/wt_re_$name"; git -C /repo worktree add -q --detach "$wt" HEAD || exit 2
+wt="/tmp/wt_re_$name"; flock /tmp/wt.lock git -C /repo worktree add -q --detach "$wt" HEAD || exit 2
 "$here/tools/confirm_seed.sh" "$d" "$wt"
-git -C /repo worktree remove --force "$wt"
+flock /tmp/wt.lock git -C /repo worktree remove --force "$wt"
 python3 - "$d" <<'PY'
 import json,sys; json.dump({"runs":[]},open(sys.argv[1]+"/detected.json","w"))
 PY
